@@ -131,8 +131,15 @@ class Traced:
         return out
 
     def concretize_out(self, out):
-        od, os_ = eqx.partition(out, _is_arr)
-        ol, _ = jax.tree_util.tree_flatten(od)
+        """concrete outputs in the structure recorded at trace time (a leaf that was an array under tracing may be a python
+        number when the same code runs with jit disabled)"""
+        n = self.out_tree.num_leaves
+        template = jax.tree_util.tree_unflatten(self.out_tree, list(range(n)))
+        picked = jax.tree_util.tree_map(lambda t, x: (None if t is None else np.asarray(x)), template, out, is_leaf=lambda x: x is None)
+        ol = [l for l in jax.tree_util.tree_leaves(picked, is_leaf=lambda x: isinstance(x, np.ndarray)) if isinstance(l, np.ndarray)]
+        if len(ol) != n:       # fall back to the array leaves of the concrete output
+            od, _ = eqx.partition(out, _is_arr)
+            ol = [np.asarray(o) for o in jax.tree_util.tree_flatten(od)[0]]
         return self._rebuild_out([conc_array(np.asarray(o)) for o in ol]), [np.asarray(o) for o in ol]
 
 
@@ -266,6 +273,9 @@ class Recorder:
         hints = Hints(self.seed, hint_spec)
         if self.replay is not None:
             if self.replay.get("prog") != prog: return
+            if tr.use_stubs and getattr(tr, "last_interp", None) is None:
+                try: tr.run(**(interp_kw or {}))
+                except Exception: pass
             self.replay_result = self._replay(prog, tr, goal_fn, self.replay["goal"], self.replay["model"], hints,
                                               concrete_pred)
             return
@@ -323,6 +333,60 @@ class Recorder:
         finally:
             tm.CONCRETE.update(old)
 
+    def _scripted_goals(self, tr, goal_fn, leaves, model, hints):
+        """second replay attempt for counterexamples that depend on what the PRNG returns: the real code is run with the
+        jax.random stubs installed (jit disabled) and the stubs answer -- keyed by the concrete PRNG key they receive -- with
+        the model's uniform samples / permutations."""
+        ctx = tr.last_interp.ctx
+        env = {}
+        for n, l in zip(tr.names, leaves):
+            a = np.asarray(l)
+            for idx in np.ndindex(*a.shape): env[n + "".join(f"_{i}" for i in idx)] = a[idx]
+        memo = {}
+        def ckey(terms):
+            out = []
+            for t in terms:
+                if t.is_const: out.append(int(t.val)); continue
+                if t in memo: out.append(memo[t]); continue
+                if t.op == "var" and t.args[0] in env: v = int(env[t.args[0]])
+                elif t in ctx.key_parent:
+                    par, num, k, j = ctx.key_parent[t]
+                    pk = jnp.asarray(np.array(ckey(par), dtype=np.uint32))
+                    ch = np.asarray(stubs._orig["split"](pk, num))
+                    for (tt, (par2, num2, k2, j2)) in list(ctx.key_parent.items()):
+                        if par2 == par and num2 == num: memo[tt] = int(ch[k2, j2])
+                    v = memo[t]
+                else: raise KeyError(str(t))
+                memo[t] = v; out.append(v)
+            return out
+        us, ps = {}, {}
+        for call in ctx.stub_calls:
+            try:
+                kb = bytes(np.array(ckey(call[1]), dtype=np.uint32).tobytes())
+            except KeyError:
+                continue
+            if call[0] == "uniform":
+                arr = call[2]
+                vals = np.empty(arr.shape, dtype=np.float64)
+                for idx in np.ndindex(*arr.shape):
+                    nm = arr[idx].args[0]
+                    vals[idx] = float(model[nm]) if nm in model else float(hints.value(nm, 0))
+                us[kb] = vals
+            elif call[0] == "perm":
+                B = call[2]; n = len(B)
+                pi = []
+                for i in range(n):
+                    ks = [k for k in range(n) if model.get(B[i][k].args[0], False)]
+                    if len(ks) != 1: pi = None; break
+                    pi.append(ks[0])
+                if pi is not None and sorted(pi) == list(range(n)): ps[kb] = np.array(pi, dtype=np.int32)
+        stubs.SCRIPT["uniform"], stubs.SCRIPT["perm"] = us, ps
+        try:
+            with jax.disable_jit():
+                return self._concrete_goals(tr, goal_fn, leaves, stubbed=True)
+        finally:
+            stubs.SCRIPT["uniform"], stubs.SCRIPT["perm"] = None, None
+
     def _replay(self, prog, tr, goal_fn, gname, model, hints, concrete_pred=None):
         model = {k: (Fraction(v) if isinstance(v, str) else v) for k, v in model.items()}
         leaves = tr.env_to_leaves(model, hints)
@@ -336,9 +400,20 @@ class Recorder:
             return dict(reproduced=True, note=f"real code raised {ex}")
         g = goals.get(gname)
         if g is None: return dict(reproduced=None, note="goal not found in concrete run")
+        if g.is_const and not g.val:
+            return dict(reproduced=True, note="")
+        # not reproduced with the real PRNG: if the program draws random numbers, replay with the model's draws
+        if tr.use_stubs and getattr(tr, "last_interp", None) is not None and tr.last_interp.ctx.stub_calls:
+            try:
+                goals2 = self._scripted_goals(tr, goal_fn, leaves, model, hints)
+                g2 = goals2.get(gname)
+                if g2 is not None and g2.is_const:
+                    return dict(reproduced=(not g2.val), note="replayed with the model's PRNG draws (stubs scripted by key, jit disabled)" if not g2.val else "")
+            except RealCodeRaised as ex:
+                return dict(reproduced=True, note=f"real code raised {ex} (scripted PRNG draws)")
         if not g.is_const:
             return dict(reproduced=None, note="goal does not fold to a constant on concrete outputs (depends on stub symbols)")
-        return dict(reproduced=(not g.val), note="")
+        return dict(reproduced=False, note="")
 
     def _handle_model(self, prog, tr, goal_fn, gname, model, hints, key_fn, concrete_pred):
         rp = self._replay(prog, tr, goal_fn, gname, model, hints, concrete_pred)
